@@ -207,6 +207,61 @@ def adaptivePlot (m : Metric) (emb : List (List V)) (kA : Nat) (order : Option (
   (Res.indexError.ofOption (adaptive n kA sn (ord.take n))).bind fun R =>
     .ok ⟨bmTab n R, emb.length, emb.length⟩
 
+/-! ### round 5: *any* argsort — what NumPy returns among tied distances is unspecified
+(introsort / SIMD sorts are not stable), so the neighbour table is taken as an input that
+only has to *be an argsort*: every row a permutation of the positions along which the
+distances are non-decreasing in `ndarray.sort` order (NaN last). -/
+
+/-- adjacent pairs are in `ndarray.sort` order -/
+def sortedV : List V → Bool
+  | a :: b :: t => leV a b && sortedV (b :: t)
+  | _ => true
+
+/-- `p` is *an* argsort of `row` (stable or not): a permutation of `0 … len−1` (its sorted
+copy is `range len`) along which the values do not decrease -/
+def isArgsortRow (row : List V) (p : List Nat) : Bool :=
+  (p.mergeSort (fun a b => decide (a ≤ b)) == List.range row.length) &&
+  sortedV (p.map fun c => row.getD c none)
+
+/-- `sn` is an argsort of `D` along axis 1 -/
+def argsortOK (D : List (List V)) (sn : List (List Nat)) : Bool :=
+  sn.length == D.length && (List.zipWith isArgsortRow D sn).all id
+
+/-- `set_adaptive_neighborhood_size(kA, order)` with the table
+`sorted_neighbors = distance.argsort(axis=1)` as NumPy produced it (`adaptivePlot` is the
+instance with the stable argsort, `adaptivePlot_eq_with`) -/
+def adaptivePlotWith (m : Metric) (emb : List (List V)) (kA : Nat) (order : Option (List Nat))
+    (sn : List (List Nat)) : Res Plot :=
+  let D := distRP m emb
+  let n := D.length
+  let ord := order.getD (List.range n)
+  if ord.length < n ∧ 0 < kA then .indexError else
+  (Res.indexError.ofOption (adaptive n kA sn (ord.take n))).bind fun R =>
+    .ok ⟨bmTab n R, emb.length, emb.length⟩
+
+/-- the distance matrix `set_adaptive_neighborhood_size` sorts: with `missing_values=True`
+a copy of the distance matrix whose rows and columns of states holding a missing value are
+set to `+inf` (`distance[mv, :] = inf; distance[:, mv] = inf` — such states are nobody's
+neighbour).  `+inf` is the top of the sort order, and no NaN is left beside it (a NaN
+distance involves a state with a missing value), so the top is represented by `none`. -/
+def adaptiveDist (m : Metric) (emb : List (List V)) (mv : Bool) : List (List V) :=
+  if mv then
+    tab emb.length emb.length fun i j =>
+      if (missingMask emb).getD i false || (missingMask emb).getD j false then none
+      else rpEntry m emb i j
+  else distRP m emb
+
+/-- `set_adaptive_neighborhood_size(kA, order)` of an object built with `missing_values = mv`:
+`sn` is the argsort NumPy returned for `adaptiveDist`, the kernel runs on it, and the shared
+masking block clears rows and columns of states with missing values -/
+def adaptivePlotMV (m : Metric) (emb : List (List V)) (kA : Nat) (order : Option (List Nat))
+    (sn : List (List Nat)) (mv : Bool) : Res Plot :=
+  let n := emb.length
+  let ord := order.getD (List.range n)
+  if ord.length < n ∧ 0 < kA then .indexError else
+  (Res.indexError.ofOption (adaptive n kA sn (ord.take n))).bind fun R =>
+    .ok ⟨maskIf mv emb (bmTab n R), emb.length, emb.length⟩
+
 /-- `JointRecurrencePlot.set_fixed_threshold_std`: thresholds `s·std(x)`, `s'·std(y)` of the
 stored (un-embedded, un-pruned) series, then the same composition as `set_fixed_threshold` -/
 def jointPlotStd (mx my : Metric) (sX sY ex ey : List (List V)) (nRaw nRawY : Nat) (lag : Int)
